@@ -3,7 +3,7 @@
     decoder: decodable (page types), key order (v_order) and page accounting (Layout.accounted).  This file proves
     that the accounting verdict is EXACT: it accepts precisely the files in which every id below the high-water mark
     is exactly one of reachable-once, part of the freelist page, or listed once as free. *)
-From Bbolt Require Import Base Consts Spec Layout LayoutProofs.
+From Bbolt Require Import Base Consts Spec Layout LayoutProofs LayoutOrderProofs.
 
 (** sound: "consistent" means no page is unreachable-and-unfreed, reachable-and-free, referenced twice, or freed twice *)
 Theorem C19_accounting_verdict_sound : forall v free,
@@ -20,3 +20,12 @@ Theorem C19_accounting_verdict_complete : forall (v : dbview) free,
   NoDup all -> (forall id, In id all <-> 2 <= id < m_mark (v_meta v)) -> accounted v free = true.
 Proof. exact accounted_complete. Qed.
 Print Assumptions C19_accounting_verdict_complete.
+
+(** the key-order clause: when the decoder's order verdict is "yes" (what the sweep compares Tx.Check's key-order reports
+    with), the decoded content is sorted at every nesting level and every page's keys lie inside the range its parent assigns *)
+Theorem C19_order_verdict_means_sorted : forall rd ps fuel base limit inline lo hi d,
+  dec_page rd ps fuel base limit inline lo hi = Some d -> r_order d = true ->
+  keys_sorted (r_ents d) = true /\
+  (forall k e, In (k, e) (r_ents d) -> opt_le lo k = true /\ opt_lt k hi = true).
+Proof. exact dec_page_sorted. Qed.
+Print Assumptions C19_order_verdict_means_sorted.
